@@ -1380,7 +1380,8 @@ def compile_template(
 def format_template(source: str, template_match: NamedTuple, **callables) -> str:
     template_match_asdict = template_match._asdict() if hasattr(template_match, "_asdict") else {}
     for name, value in template_match_asdict.items():
-        source = source.replace("{{" + name + "}}", unparse(value))
+        if "{{" + name + "}}" in source:
+            source = source.replace("{{" + name + "}}", unparse(value))
 
     # It's ok that some of the template_match isn't used, just like str.format()
     # may not use all of the arguments.
